@@ -10,51 +10,60 @@
     C11_norm_sound       normD a = normD b → normD (feed a c) = normD (feed b c)        (for reachable a, b)
     C11_from_parts       the two together give: Obs equal after every continuation      [proved]
 
-  STATUS: PARTIAL.  `C11_dump_full` and `C11_norm_sound` are stated (as `def … : Prop`), not proved.
-  What is proved, unbounded (every size, every register content, every pen, every parameter list):
+  STATUS: PARTIAL (continuation half complete; restore half for the primary screen with an arbitrary saved
+  context of its own and the alternate screen's saved context default).  Two of the first statements turned out FALSE of the model (and of the crate):
+    * `C11_dump_full` for screens with `cols ≥ 65535` or `rows > 65535` — finding KF6 (numbers written by
+      `dump()` are read back modulo 2^16; witness known/KF6.script, classifier `sizeExceedsU16`);
+    * `C11_norm_sound` for states resized while the alternate screen is showing (`C11_norm_sound_false`,
+      kernel-checked witness): leaving the alternate screen reflows the parked primary and reads its
+      scrollback.  The exception is the one the property names (KF2).
+  The corrected statements are `C11_dump_full'` (still a `def`, proved for the class below) and
+  `C11_norm_sound'` (a THEOREM: `C11_norm_sound'_holds`).
 
-    Avt.Props.C11.C11_feedAll_append          feeding a concatenation = feeding the pieces in order
-    Avt.Props.C11.C11_renderDec_roundtrip     decimal rendering: digits only, reads back to the number
-    Avt.Props.C11.C11_parser_dump             Parser.dump round trip, ALL 14 states (CsiParam/DcsParam with
-                                              arbitrary parameter lists incl. sub-parameters and a marker)
-    Avt.Props.C11.C11_parser_dump_vt          … lifted to Vt: the terminal is untouched, the parser restored
-    Avt.Props.C11.C11_csi_roundtrip           every numeric CSI sequence `CSI p;p:q;… F` rebuilds its parameter
-                                              list in the registers and dispatches on it (all dump() fragments
-                                              with numbers are instances)
-    Avt.Props.C11.C11_pen_dump                Pen.dump: the SGR parameter list decodes to ops that turn ANY pen
-                                              into the dumped pen (parameter level)
-    Avt.Props.C11.C11_pen_dump_chars          … at character level, through the parser
-    Avt.Props.C11.C11_dump_blank_partial      END TO END (restore half) for the power-on screen of any size and limit
-                                              with an ARBITRARY pen and the parser in ANY state: dump() fed to a
-                                              fresh terminal restores the state up to normD
-    Avt.Props.C11.C11_norm_obs                normD-equal states are Obs-equal
-    Avt.Props.C11.C11_normP_sound             normal-form soundness of the PARSER, every character (over the
-                                              generated tables): parsers agreeing up to dead registers emit the
-                                              same function and keep agreeing
-    Avt.Props.C11.C11_norm_sound_step_partial normal-form soundness for the 33 functions that touch no buffer
-    Avt.Props.C11.C11_norm_sound_feed_partial … combined at Vt level: one character, any parser state, emitted
-                                              function (if any) touching no buffer
-    Avt.Props.C11.C11_from_parts              C11_dump_full ∧ C11_norm_sound → Obs equal for all future input
-    Avt.Props.C11.C11_reach_feedAll           reachability is closed under input
-    Avt.Props.C11.C11_cursorStepFaithful_inside  step 9 is trivially faithful unless origin mode is on and the
-                                              cursor is outside the scroll region
+  Proved, unbounded (every size within KF6's bound, every content, every pen, every parameter list):
+
+  restore half
+    Avt.Props.C11.C11_buffer_dump             `Buffer.dump` round trip: pen runs (SGR), REP-compressed runs,
+                                              CR LF after unwrapped rows only; re-creates cells, pens and
+                                              wrap marks of any view on a blank screen (dump steps 1 and 4)
+    Avt.Props.C11.C11_dump_primary_partial    END TO END restore for states on the PRIMARY screen (alternate
+                                              screen's saved context default): arbitrary view, scrollback,
+                                              saved cursor context, tab stops, margins,
+                                              origin mode (cursor inside the region), cursor incl. wrap-pending,
+                                              visibility, pen, character sets, all modes, parser cut anywhere
+    Avt.Props.C11.C11_dump_blank_partial      (earlier) power-on screen, any pen, any parser state
+    Avt.Props.C11.C11_parser_dump(_vt), C11_csi_roundtrip, C11_pen_dump(_chars), C11_renderDec_roundtrip
+    step lemmas (Avt/Lemmas/C11Steps1–3.lean): one `Feeds fragment t t'` per fragment of `Terminal.dump`
+                                              (tab stops, ESC 7, origin, margins, CUP, wrap-pending re-print,
+                                              pen, visibility, charsets, insert/auto-wrap/LNM/DECCKM, `?1047h/l`)
+  continuation half
+    Avt.Props.C11.C11_norm_sound_step         normal-form soundness of EVERY control function (print/REP, cursor,
+                                              erase/insert/delete, scroll, SGR, modes, tabs, save/restore, the
+                                              alternate-screen switches, RIS, XTWINOPS)
+    Avt.Props.C11.C11_norm_sound_step_inv     its invariant (TInv, not resized on the alternate screen) is kept
+    Avt.Props.C11.C11_normP_sound             … of the parser, every character
+    Avt.Props.C11.C11_pregOK_stable           the parser's register-shape invariant is kept by every character
+    Avt.Props.C11.C11_norm_sound_feed         one character at `Vt` level, any parser state, any function
+    Avt.Props.C11.C11_norm_sound'_holds       = the corrected continuation half
+    Avt.Props.C11.C11_norm_sound_feedAll      whole continuations
+    Avt.Props.C11.C11_reach_inv               every reachable state satisfies `Inv` and `PRegOK`
+  together
+    Avt.Props.C11.C11_primary_end_to_end      for the class of `C11_dump_primary_partial`: restored and original
+                                              show the same through the public API now and after EVERY input
+    Avt.Props.C11.C11_from_dump_full'         `C11_dump_full'` alone implies the property as the text words it
+                                              (the continuation half is discharged)
+    Avt.Props.C11.C11_from_parts              (earlier) the decomposition with both halves as hypotheses
   and the NEGATIONS on the known-finding witnesses (kernel evaluation of the whole model):
-    Avt.Props.C11.KF1_witness  Avt.Props.C11.KF2_witness  Avt.Props.C11.KF3_witness
-  plus the same evaluation on a faithful neighbour of each (`KF1_neighbour_ok`, …) showing the classifier is
-  not vacuous.
+    Avt.Props.C11.KF1_witness  KF2_witness  KF3_witness  (+ `KFn_neighbour_ok`),  C11_norm_sound_false
 
-  Missing for the full theorem `C11_dump_full`: `buffer_dump` (row content with pen runs and REP
-  compression, CRLF only after unwrapped rows) and the terminal-level effect of steps 2–8 and 10–14 on
-  non-default states (tab stops, the two saved contexts, origin mode, margins, charsets, modes); their
-  character-level halves are instances of `C11_csi_roundtrip` / `C11_pen_dump_chars` / closed strings.
-  Missing for `C11_norm_sound`: the buffer-touching functions (print, LF/RI, scrolls, erase/insert/delete,
-  REP, DECALN), the alternate-screen switches and RIS.  For all of them except RIS the frame lemma of
-  Avt/Lemmas/FrameExec.lean (`Avt.Frame.execute_rel`) already shows that scrollback, limits, trim flag
-  and dirty flags are never read; what it does not cover is the deadness of the parked alternate buffer
-  and the clamping of the parked saved context, which `normD` also erases.
-  Those parts rest on the correspondence + spec-on-impl layers: the oracle checks `normD`-equality after
-  the restore AND after every probe/continuation, i.e. it tests `C11_dump_full` and `C11_norm_sound`
-  on the implementation.
+  Missing for `C11_dump_full'`: a non-default saved context of the ALTERNATE screen (dump step 5, between the
+  switches of steps 4 and 6; step 3 — the primary's own context — is done: `stage_ctx`), the alternate screen
+  showing (steps 4 and 6: `C11_buffer_dump` applies to the alternate buffer as well; the switch is
+  given in closed form by `decset_alt_eq`), the `CSI u` route of step 9 for a cursor outside the region
+  (`cursorStepFaithful` non-trivial), and that reachable states satisfy `viewOKb` / `penOKb` (cells hold
+  printable characters and `u8` pens — an invariant of every function and of `resize`, not yet proved; it
+  is a decidable hypothesis of the theorems above).  Those parts rest on the correspondence + spec-on-impl
+  layers: the oracle checks `normD`-equality after the restore AND after every probe/continuation.
 -/
 import Avt.Lemmas.C11Pen
 import Avt.Lemmas.C11ParserNorm
@@ -62,6 +71,7 @@ import Avt.Lemmas.C11Witness
 import Avt.Lemmas.C11Blank
 import Avt.Lemmas.C11Steps3
 import Avt.Lemmas.C11Sound3
+import Avt.Lemmas.C11SoundReg
 
 namespace Avt.Props.C11
 open Avt Avt.Spec.C11 Avt.Lemmas.C11
@@ -273,11 +283,11 @@ theorem C11_feeds_iff (s : List Nat) (t t' : Terminal) :
       ∃ q', Vt.feedAll ⟨q, t⟩ s = some ⟨q', t'⟩ ∧ q'.state = .Ground ∧ PInv q' = true :=
   ⟨fun h q h1 h2 => h q ⟨h1, h2⟩, fun h q hq => h q hq.1 hq.2⟩
 
-/-- **C11, restore half, PRIMARY screen with default saved contexts** (`C11_dump_full` restricted by
-    decidable hypotheses; everything else is arbitrary): any state satisfying the global invariant whose
-    parser registers have the shape of their state (both hold for every reachable state), showing the
-    primary screen, with the two saved cursor contexts in their default state (dump steps 3–6 then emit
-    only `ESC [ m`), cells and pens well-formed (`viewOKb`, `penOKb`: printable characters, `u8` colour
+/-- **C11, restore half, PRIMARY screen** (`C11_dump_full` restricted by decidable hypotheses; everything
+    else is arbitrary): any state satisfying the global invariant whose parser registers have the shape of
+    their state (both hold for every reachable state, `C11_reach_inv`), showing the primary screen, with
+    the ALTERNATE screen's saved cursor context in its default state (dump steps 4–6 then emit nothing; the
+    primary screen's own saved context is ARBITRARY — step 3), cells and pens well-formed (`viewOKb`, `penOKb`: printable characters, `u8` colour
     components, five attribute bits — what every history produces), `cols ≤ 65534`, `rows ≤ 65535`
     (finding KF6), and the cursor inside the scroll region when origin mode is on (so `cursorStepFaithful`
     holds trivially).  ARBITRARY: view content (any characters, pens, wrap marks, REP runs), scrollback,
@@ -286,7 +296,7 @@ theorem C11_feeds_iff (s : List Nat) (t t' : Terminal) :
     states.  Then `dump()` fed to a fresh terminal of the same size restores the state up to `normD`. -/
 theorem C11_dump_primary_partial (s : Vt) (hinv : Inv s = true) (hreg : PRegOK s.parser = true)
     (hprim : s.terminal.activeBufferType = .primary)
-    (hs : s.terminal.savedCtx.isDefault = true) (ha : s.terminal.alternateSavedCtx.isDefault = true)
+    (ha : s.terminal.alternateSavedCtx.isDefault = true)
     (hcells : viewOKb s.terminal.buffer.view = true)
     (hpens : (penOKb s.terminal.pen && penOKb s.terminal.savedCtx.pen && penOKb s.terminal.alternateSavedCtx.pen) = true)
     (hcols : s.terminal.cols < 65535) (hrows : s.terminal.rows ≤ 65535)
@@ -299,7 +309,7 @@ theorem C11_dump_primary_partial (s : Vt) (hinv : Inv s = true) (hreg : PRegOK s
   exact restore_of_dump s hinv hreg
     (dump_primary s.terminal
       ⟨hi.2, hprim, viewOK_of_b hcells, penOK_of_b hpens.1.1, hcols, hrows, hinside⟩
-      hs (penOK_of_b hpens.1.2) ha (penOK_of_b hpens.2))
+      (penOK_of_b hpens.1.2) ha (penOK_of_b hpens.2))
 
 /-- the hypotheses of `C11_dump_primary_partial` imply the two side conditions of `C11_dump_full` -/
 theorem C11_primary_not_excepted (t : Terminal) (hprim : t.activeBufferType = .primary)
@@ -345,13 +355,18 @@ theorem C11_norm_sound_feed (a b : Vt) (ha : Inv a = true) (hb : Inv b = true)
   norm_sound_feed_all a b (agree_of ⟨ha, ra, ga⟩ ⟨hb, rb, gb⟩ h) (Good.pre ⟨ha, ra, ga⟩) (Good.pre ⟨hb, rb, gb⟩)
     (congrArg Vt.terminal h) c
 
-/-- **normal-form soundness, whole continuations**, under the contract `PRegOKStable` (the parser's
-    register-shape invariant is preserved by every character; checked on the implementation by the
-    C11 oracle): `Good` states (invariant, register shape, not resized on the alternate screen) with
-    equal normal forms have equal normal forms after ANY input, and panic together. -/
-theorem C11_norm_sound_feedAll (hst : PRegOKStable) (xs : List Nat) (a b : Vt) (ha : Good a) (hb : Good b)
+/-- **the parser's register-shape invariant is preserved by every character** (all 14 states, every
+    `c : Nat`; the diagram is evaluated on its 160 character classes) -/
+theorem C11_pregOK_stable (p p' : Parser) (c : Nat) (f : Option Function) (hi : PInv p = true)
+    (hr : PRegOK p = true) (h : p.feed c = some (p', f)) : PRegOK p' = true :=
+  pregOK_stable p p' c f hi hr h
+
+/-- **normal-form soundness, whole continuations**: `Good` states (invariant, register shape, not
+    resized on the alternate screen — all three kept by every character) with equal normal forms have
+    equal normal forms after ANY input, and panic together. -/
+theorem C11_norm_sound_feedAll (xs : List Nat) (a b : Vt) (ha : Good a) (hb : Good b)
     (h : normD a = normD b) : (a.feedAll xs).map normD = (b.feedAll xs).map normD :=
-  norm_sound_feedAll hst xs a b ha hb h
+  norm_sound_feedAll pregOK_stable xs a b ha hb h
 
 /-! ### the corrected full statements -/
 
@@ -387,7 +402,7 @@ theorem good_new (cols rows : Nat) (hc : 1 ≤ cols) (hr : 1 ≤ rows) :
     subst hv; rfl
 
 /-- the restored terminal is `Good` -/
-theorem good_restore (hst : PRegOKStable) {s r : Vt} (hc : 1 ≤ s.terminal.cols) (hr : 1 ≤ s.terminal.rows)
+theorem good_restore {s r : Vt} (hc : 1 ≤ s.terminal.cols) (hr : 1 ≤ s.terminal.rows)
     (h : restoreOf s = some r) : Good r := by
   unfold restoreOf at h
   cases hd : s.dump with
@@ -400,19 +415,19 @@ theorem good_restore (hst : PRegOKStable) {s r : Vt} (hc : 1 ≤ s.terminal.cols
     | some v =>
       simp only [hfa, Option.map_some, Option.some.injEq] at h
       subst h
-      have gv := Good.feedAll hst d gf hfa
+      have gv := Good.feedAll pregOK_stable d gf hfa
       obtain ⟨v', ch, e1, i1, _⟩ := Props.Closed.C02_feedStr d gf.inv
       simp only [Vt.feedStr, hfa, Option.map_some, Option.some.injEq] at e1
       exact gv.finish (by rw [e1]; exact i1)
 
-/-- **C11 END TO END for the primary screen with default saved contexts**: under the hypotheses of
-    `C11_dump_primary_partial` (and the contract `PRegOKStable`), `dump()` fed to a fresh terminal of the
+/-- **C11 END TO END for the primary screen** (alternate screen's saved context default): under the hypotheses of
+    `C11_dump_primary_partial`, `dump()` fed to a fresh terminal of the
     same size yields a terminal that shows the same through the public API — view cells, pens, wrap
     marks, cursor, cursor-key mode — now and after EVERY continuation input (all control functions,
     including screen switches and RIS, completing a cut escape sequence), and the two panic together. -/
-theorem C11_primary_end_to_end (hst : PRegOKStable) (s : Vt) (hinv : Inv s = true) (hreg : PRegOK s.parser = true)
+theorem C11_primary_end_to_end (s : Vt) (hinv : Inv s = true) (hreg : PRegOK s.parser = true)
     (hprim : s.terminal.activeBufferType = .primary)
-    (hs : s.terminal.savedCtx.isDefault = true) (ha : s.terminal.alternateSavedCtx.isDefault = true)
+    (ha : s.terminal.alternateSavedCtx.isDefault = true)
     (hcells : viewOKb s.terminal.buffer.view = true)
     (hpens : (penOKb s.terminal.pen && penOKb s.terminal.savedCtx.pen && penOKb s.terminal.alternateSavedCtx.pen) = true)
     (hcols : s.terminal.cols < 65535) (hrows : s.terminal.rows ≤ 65535)
@@ -420,14 +435,130 @@ theorem C11_primary_end_to_end (hst : PRegOKStable) (s : Vt) (hinv : Inv s = tru
       ∨ (s.terminal.topMargin ≤ s.terminal.cursor.row ∧ s.terminal.cursor.row ≤ s.terminal.bottomMargin)) :
     ∃ r, restoreOf s = some r ∧ normD r = normD s
       ∧ ∀ xs : List Nat, (s.feedAll xs).map obs = (r.feedAll xs).map obs := by
-  obtain ⟨r, h1, h2⟩ := C11_dump_primary_partial s hinv hreg hprim hs ha hcells hpens hcols hrows hinside
+  obtain ⟨r, h1, h2⟩ := C11_dump_primary_partial s hinv hreg hprim ha hcells hpens hcols hrows hinside
   have hi := hinv
   simp only [Inv, Bool.and_eq_true] at hi
   have ht := TOK.of_TInv hi.2
   have gs : Good s := ⟨hinv, hreg, by simp [resizedOnAlt, hprim]⟩
-  have gr : Good r := good_restore hst ht.c1 ht.r1 h1
+  have gr : Good r := good_restore ht.c1 ht.r1 h1
   refine ⟨r, h1, h2, fun xs => ?_⟩
-  have := C11_norm_sound_feedAll hst xs s r gs gr h2.symm
+  have := C11_norm_sound_feedAll xs s r gs gr h2.symm
+  cases hsa : s.feedAll xs with
+  | none =>
+    cases hra : r.feedAll xs with
+    | none => rfl
+    | some b' => simp [hsa, hra] at this
+  | some a' =>
+    cases hra : r.feedAll xs with
+    | none => simp [hsa, hra] at this
+    | some b' =>
+      simp only [hsa, hra, Option.map_some, Option.some.injEq] at this ⊢
+      exact C11_norm_obs a' b' this
+
+
+/-! ### every reachable state is `Good` (unless resized on the alternate screen) -/
+
+theorem preg_feedAll : ∀ (xs : List Nat) {v v' : Vt}, Inv v = true → PRegOK v.parser = true →
+    v.feedAll xs = some v' → PRegOK v'.parser = true
+  | [], v, v', _, hr, hf => by simp only [Vt.feedAll, Option.some.injEq] at hf; subst hf; exact hr
+  | c :: cs, v, v', hi, hr, hf => by
+    simp only [Vt.feedAll] at hf
+    cases h1 : v.feed c with
+    | none => simp [h1] at hf
+    | some v1 =>
+      simp only [h1] at hf
+      obtain ⟨v2, e2, i2⟩ := Props.Closed.C02_feed c hi
+      rw [h1] at e2; cases e2
+      have hi' := hi
+      simp only [Inv, Bool.and_eq_true] at hi'
+      have hr1 : PRegOK v1.parser = true := by
+        unfold Vt.feed at h1
+        cases hp : v.parser.feed c with
+        | none => simp [hp] at h1
+        | some r =>
+          obtain ⟨p', fo⟩ := r
+          have := pregOK_stable v.parser p' c fo hi'.1 hr hp
+          cases fo with
+          | none => simp only [hp, Option.some.injEq] at h1; subst h1; exact this
+          | some f =>
+            simp only [hp, Option.map_eq_some_iff] at h1
+            obtain ⟨t', _, rfl⟩ := h1
+            exact this
+      exact preg_feedAll cs i2 hr1 hf
+
+theorem runHist_inv : ∀ (hist : List HOp) {v s : Vt}, Inv v = true → PRegOK v.parser = true →
+    (∀ op ∈ hist, ∀ c r, op = HOp.resize c r → 1 ≤ c ∧ 1 ≤ r) → runHist v hist = some s →
+    Inv s = true ∧ PRegOK s.parser = true
+  | [], v, s, hi, hr, _, h => by simp only [runHist, Option.some.injEq] at h; subst h; exact ⟨hi, hr⟩
+  | op :: rest, v, s, hi, hr, hv, h => by
+    simp only [runHist] at h
+    cases h1 : op.run v with
+    | none => simp [h1] at h
+    | some v1 =>
+      simp only [h1] at h
+      have hrest : ∀ op' ∈ rest, ∀ c r, op' = HOp.resize c r → 1 ≤ c ∧ 1 ≤ r :=
+        fun op' ho => hv op' (List.mem_cons_of_mem _ ho)
+      have step : Inv v1 = true ∧ PRegOK v1.parser = true := by
+        cases op with
+        | feedStr str =>
+          simp only [HOp.run, Vt.feedStr] at h1
+          cases hfa : v.feedAll str with
+          | none => simp [hfa] at h1
+          | some w =>
+            simp only [hfa, Option.map_some, Option.some.injEq] at h1
+            subst h1
+            obtain ⟨v', ch, e1, i1, _⟩ := Props.Closed.C02_feedStr str hi
+            simp only [Vt.feedStr, hfa, Option.map_some, Option.some.injEq] at e1
+            exact ⟨by rw [e1]; exact i1, (preg_feedAll str hi hr hfa : PRegOK w.parser = true)⟩
+        | feedChars str =>
+          simp only [HOp.run] at h1
+          obtain ⟨v', e1, i1⟩ := Props.Closed.C02_feedAll str hi
+          rw [h1] at e1; cases e1
+          exact ⟨i1, preg_feedAll str hi hr h1⟩
+        | resize c r =>
+          obtain ⟨hc, hr'⟩ := hv _ (List.mem_cons_self ..) c r rfl
+          obtain ⟨v', ch, e1, i1, _⟩ := Props.Closed.C02_resize (c := c) (r := r) hi hc hr'
+          simp only [HOp.run, e1, Option.map_some, Option.some.injEq] at h1
+          subst h1
+          refine ⟨i1, ?_⟩
+          simp only [Vt.resize, Option.map_eq_some_iff] at e1
+          obtain ⟨t', _, he⟩ := e1
+          have : v'.parser = v.parser := by
+            have := congrArg (fun x => x.1.parser) he
+            simpa [Vt.finish] using this.symm
+          rw [this]; exact hr
+      exact runHist_inv rest step.1 step.2 hrest h
+
+/-- every reachable state satisfies the invariant and has its parser registers in shape -/
+theorem C11_reach_inv {s : Vt} (h : Lemmas.C11.Reach s) : Inv s = true ∧ PRegOK s.parser = true := by
+  obtain ⟨cols, rows, lim, hist, hc, hr, hv, hrun⟩ := h
+  obtain ⟨v, e, hi⟩ := Props.C02.C02_init lim hc hr
+  simp only [e, Option.bind_some] at hrun
+  have hp : PRegOK v.parser = true := by
+    simp only [Vt.new, Option.map_eq_some_iff] at e
+    obtain ⟨t, _, rfl⟩ := e
+    show PRegOK Parser.new = true
+    decide
+  exact runHist_inv hist hi hp hv hrun
+
+/-- **the decomposition, corrected and with the continuation half discharged**: the corrected restore
+    half `C11_dump_full'` alone gives the property as the text words it — for every reachable state that is
+    not one of the known exceptions (KF1/KF3 `cursorStepFaithful`, KF2 `resizedOnAlt`, KF6 size), original and
+    restored show the same through the public API now and after every continuation, and panic together -/
+theorem C11_from_dump_full' (hd : C11_dump_full') (s : Vt) (hr : Lemmas.C11.Reach s)
+    (h2 : resizedOnAlt s.terminal = false) (h1 : cursorStepFaithful s.terminal = true)
+    (h6 : sizeExceedsU16 s.terminal = false) :
+    ∃ r, restoreOf s = some r ∧
+      ∀ xs : List Nat, (s.feedAll xs).map obs = (r.feedAll xs).map obs := by
+  obtain ⟨r, hrs, hn⟩ := hd s hr h2 h1 h6
+  obtain ⟨hi, hreg⟩ := C11_reach_inv hr
+  have hi' := hi
+  simp only [Inv, Bool.and_eq_true] at hi'
+  have ht := TOK.of_TInv hi'.2
+  have gs : Good s := ⟨hi, hreg, h2⟩
+  have gr : Good r := good_restore ht.c1 ht.r1 hrs
+  refine ⟨r, hrs, fun xs => ?_⟩
+  have := C11_norm_sound_feedAll xs s r gs gr hn.symm
   cases hsa : s.feedAll xs with
   | none =>
     cases hra : r.feedAll xs with
@@ -505,6 +636,54 @@ theorem KF3_neighbour_ok :
       = some { findings := [], sameAtRestore := true, obsSameAtRestore := true,
                sameAfterProbe := true, obsSameAfterProbe := true } := by decide +kernel
 
+
+/-! ### the continuation half as first stated is false (states resized on the alternate screen) -/
+
+/-- 4x2, unlimited scrollback: `x CR LF b CR LF c` (one line scrolls off), `CSI ?1047h`, resize to 4x3 on the
+    alternate screen, then `ESC [ ? 1 0 4 7` fed character by character (cut before the final `l`) -/
+def nsHist (x : Nat) : List HOp :=
+  [.feedStr [x, 0x0d, 0x0a, 0x62, 0x0d, 0x0a, 0x63],
+   .feedStr [esc, 0x5b, 0x3f, 0x31, 0x30, 0x34, 0x37, 0x68],
+   .resize 4 3,
+   .feedChars [esc, 0x5b, 0x3f, 0x31, 0x30, 0x34, 0x37]]
+
+def nsState (x : Nat) : Option Vt := (Vt.new 4 2 none).bind fun v => runHist v (nsHist x)
+
+/-- the histories with `x = 'a'` and `x = 'x'` end in states with EQUAL normal forms (they differ in the
+    scrollback of the parked primary only) — and the next character `l` makes even the public
+    observations differ: leaving the alternate screen reflows the parked primary to the new height,
+    which pulls the scrolled-off line back into the view -/
+def nsCheck : Bool :=
+  match nsState 0x61, nsState 0x78 with
+  | some a, some b => normD a == normD b && ((a.feed 0x6c).map normD != (b.feed 0x6c).map normD)
+      && ((a.feed 0x6c).map obs != (b.feed 0x6c).map obs) && resizedOnAlt a.terminal
+  | _, _ => false
+
+theorem nsCheck_true : nsCheck = true := by decide +kernel
+
+/-- **`C11_norm_sound` as first stated is FALSE** (it lacks the exception the property names: resized
+    while the alternate screen is showing); `C11_norm_sound'` is the corrected statement and a theorem -/
+theorem C11_norm_sound_false : ¬ C11_norm_sound := by
+  intro h
+  have hc := nsCheck_true
+  unfold nsCheck at hc
+  cases ha : nsState 0x61 with
+  | none => simp [ha] at hc
+  | some a =>
+    cases hb : nsState 0x78 with
+    | none => simp [ha, hb] at hc
+    | some b =>
+      simp only [ha, hb, Bool.and_eq_true, beq_iff_eq, bne_iff_ne, ne_eq] at hc
+      obtain ⟨⟨⟨h1, h2⟩, _⟩, _⟩ := hc
+      have valid : ∀ x, ∀ op ∈ nsHist x, ∀ c r, op = HOp.resize c r → 1 ≤ c ∧ 1 ≤ r := by
+        intro x op hop c r he
+        simp only [nsHist, List.mem_cons, List.not_mem_nil, or_false] at hop
+        rcases hop with rfl | rfl | rfl | rfl <;> cases he
+        exact ⟨by decide, by decide⟩
+      have ra : Lemmas.C11.Reach a := ⟨4, 2, none, nsHist 0x61, by decide, by decide, valid _, ha⟩
+      have rb : Lemmas.C11.Reach b := ⟨4, 2, none, nsHist 0x78, by decide, by decide, valid _, hb⟩
+      exact h2 (h a b ra rb h1 0x6c)
+
 /-! ### a concrete non-trivial state -/
 
 /-- 9x4: coloured and struck-through text that wraps, a cleared tab stop, the drawing charset in G1 and
@@ -550,15 +729,16 @@ example : ∃ s, exState = some s ∧
 
 /-! ### `C11_dump_primary_partial` applies to a concrete non-trivial state -/
 
-/-- 9x4, primary screen, default saved contexts: red bold text with a run of 14 equal characters that
-    soft-wraps (REP + wrap mark), a second pen on the next row, a cleared and an added tab stop, margins
+/-- 9x4, primary screen: red bold text with a run of 14 equal characters that
+    soft-wraps (REP + wrap mark), a second pen on the next row, a saved cursor context with that pen at
+    (8, 2), a cleared and an added tab stop, margins
     2..4 with origin mode, the drawing set in G1 and shifted in, insert and new-line mode, application
     cursor keys, hidden cursor, the cursor parked wrap-pending at the end of row 2 inside the region, and
     the input cut inside `CSI 12;3` -/
 def exPHist : List HOp :=
   [.feedStr [esc, 0x5b, 0x33, 0x31, 0x3b, 0x31, 0x6d],                                   -- CSI 31;1m
    .feedStr [0x61, 0x61, 0x61, 0x61, 0x61, 0x61, 0x61, 0x61, 0x61, 0x61, 0x61, 0x61, 0x61, 0x61, 0x0d, 0x0a], -- a×14 CR LF
-   .feedStr [esc, 0x5b, 0x34, 0x34, 0x6d, 0x78, 0x79, 0x7a, 0x7a, 0x7a, 0x7a, 0x7a, 0x7a],      -- CSI 44m xyzzzzzz
+   .feedStr [esc, 0x5b, 0x34, 0x34, 0x6d, 0x78, 0x79, 0x7a, 0x7a, 0x7a, 0x7a, 0x7a, 0x7a, esc, 0x37], -- CSI 44m xyzzzzzz ESC 7
    .feedStr [esc, 0x5b, 0x33, 0x47, esc, 0x48, esc, 0x5b, 0x39, 0x47, esc, 0x5b, 0x67],        -- CSI 3G HTS CSI 9G CSI g
    .feedStr [esc, 0x29, 0x30, 0x0e, esc, 0x5b, 0x34, 0x3b, 0x32, 0x30, 0x68],                 -- ESC )0 SO CSI 4;20h
    .feedStr [esc, 0x5b, 0x3f, 0x31, 0x68, esc, 0x5b, 0x3f, 0x32, 0x35, 0x6c],                 -- CSI ?1h CSI ?25l
@@ -574,13 +754,13 @@ theorem exPState_isSome : exPState.isSome = true := by decide +kernel
     every hypothesis of `C11_dump_primary_partial`, hence its dump restores it -/
 example : ∃ s r, exPState = some s
     ∧ s.terminal.pendingWrap = true ∧ s.terminal.originMode = true ∧ s.terminal.topMargin = 1
-    ∧ s.terminal.tabs ≠ Tabs.new 9 ∧ s.parser.state = .CsiParam
+    ∧ s.terminal.tabs ≠ Tabs.new 9 ∧ s.parser.state = .CsiParam ∧ s.terminal.savedCtx.isDefault = false
     ∧ restoreOf s = some r ∧ normD r = normD s := by
   have hs := Option.some_get exPState_isSome
   obtain ⟨r, h1, h2⟩ := C11_dump_primary_partial (exPState.get exPState_isSome)
     (by decide +kernel) (by decide +kernel) (by decide +kernel) (by decide +kernel) (by decide +kernel)
-    (by decide +kernel) (by decide +kernel) (by decide +kernel) (by decide +kernel) (by decide +kernel)
+    (by decide +kernel) (by decide +kernel) (by decide +kernel) (by decide +kernel)
   exact ⟨_, r, hs.symm, by decide +kernel, by decide +kernel, by decide +kernel, by decide +kernel,
-    by decide +kernel, h1, h2⟩
+    by decide +kernel, by decide +kernel, h1, h2⟩
 
 end Avt.Props.C11
